@@ -96,7 +96,7 @@ def cbor_shape(facts_list, t, depth=0):
 def ctor_variants(F, t, depth=0, seen=None):
     """Set of EnvelopeCase variants a (success) value term may construct, following crate-local calls."""
     seen = seen or set()
-    if depth > 5 or not isinstance(t, tuple) or not t:
+    if depth > 12 or not isinstance(t, tuple) or not t:
         return None
     t = unwrap_try(t)
     if t[0] == 'phi':
@@ -239,3 +239,54 @@ def decoder_table(ctx):
             else:
                 out['table'][(kind, tg)] |= vs
     return out
+
+
+def check_node_reader(ctx, inst, dec=None):
+    """Reader side of C05.3: the node accept value is node(decode(elements[0]), map(decode, elements[1..]))."""
+    F = ctx.F
+    if dec is None:
+        dec = decoder_table(ctx)
+        if dec is None:
+            ctx.lost(inst, 'decoder')
+            return
+    b = dec['body']
+    for bi, si, t, kind, tags, vs in dec['accepts']:
+        if kind != 'Array':
+            continue
+        t2 = unwrap_try(t[3][0]) if t[0] == 'agg' and t[2] == 'Ok' else unwrap_try(t)
+        a = None
+        c = callee_of(t2)
+        if c is not None and len(t2[2]) == 2:
+            a = t2[2]
+        good = False
+        if a is not None:
+            s = m_call(unwrap_try(a[0]), name='from_untagged_cbor')
+            rest = unwrap_try(a[1])
+            col = m_call(rest, name='collect', trait='Iterator')
+            if s is not None and col is not None:
+                ix = m_call(s[0], name='index')
+                mp = m_call(col[0], name='map', trait='Iterator')
+                if ix is not None and const_int(ix[1]) == 0 and mp is not None and mp[1][0] == 'fnref' and mp[1][1].endswith('from_untagged_cbor'):
+                    src = elem_source(mp[0])
+                    ix2 = m_call(src, name='index')
+                    if ix2 is not None and same(ix2[0], ix[0]) and ix2[1][0] == 'agg' and ix2[1][1].endswith('RangeFrom') and const_int(ix2[1][3][0]) == 1:
+                        good = True
+        if good:
+            # the accept value, with thin wrappers expanded, must be the node aggregate over exactly these two values
+            full = inline(F, t)
+            w = is_case_ctor_wrapper(full)
+            if w is None or w[2] != 'Node':
+                good = False
+                t2 = full
+            else:
+                fields = dict(zip(w[4], w[3]))
+                srt = fields['assertions']
+                base = srt[3][0] if srt[0] == 'mut' and call_name(srt) in ('sort_by', 'sort_unstable_by', 'sort_by_key') else srt
+                if not (same(detry(fields['subject']), detry(a[0])) and same(detry(base), detry(a[1]))):
+                    good = False
+                    t2 = full
+        if good:
+            ctx.ok(inst, ctx.site(b, bi, si), 'reader: subject = decode(elements[0]); assertions = decode each of elements[1..] in order', sample=fmt(t2))
+        else:
+            ctx.fail(inst, ctx.site(b, bi, si), 'node reader is not (decode(elements[0]), map(decode, elements[1..])): %s' % fmt(t2), key='C05.3|reader')
+
